@@ -797,7 +797,7 @@ func (s *sim) emitOwn(n *node, rs *cstypes.RoundState, rl *released) {
 		m := &netMsg{msg: &cons.VoteMessage{Vote: v}, desc: voteDesc(v)}
 		s.byz.observeVote(v)
 		for _, o := range s.nodes {
-			if o != n {
+			if o != n && s.honestWouldSendVote(o, v) {
 				s.net.send(n.id, o, m)
 			}
 		}
@@ -845,7 +845,11 @@ func (s *sim) emitOwn(n *node, rs *cstypes.RoundState, rl *released) {
 	}
 	pm := &netMsg{msg: &cons.ProposalMessage{Proposal: pr}, desc: fmt.Sprintf("proposal %d/%d %s pol=%d", pr.Height, pr.Round, short(pr.BlockID.Hash), pr.POLRound)}
 	for _, o := range s.nodes {
-		if o == n {
+		if o == n || !o.up {
+			continue
+		}
+		// gossipDataRoutine sends the proposal (and the parts for the header it announces) only to a peer at the same height/round
+		if ro := o.cs.GetRoundState(); ro.Height != pr.Height || ro.Round != pr.Round {
 			continue
 		}
 		s.net.send(n.id, o, pm)
@@ -854,6 +858,29 @@ func (s *sim) emitOwn(n *node, rs *cstypes.RoundState, rl *released) {
 		}
 	}
 	s.byz.observeProposal(pr, parts)
+}
+
+// honestWouldSendVote: would an honest node's gossipVotesRoutine send vote v to peer b, given b's (true) round
+// state? The reactor sends votes of the peer's own round, of the POL round of the peer's proposal, LastCommit
+// precommits while the peer is in the NewHeight step, and the commit's precommits to a peer on a lower height.
+// Votes of other rounds reach a node only through byzantine relays.
+func (s *sim) honestWouldSendVote(b *node, v *types.Vote) bool {
+	if !b.up {
+		return true // lost anyway
+	}
+	rb := b.cs.GetRoundState()
+	switch {
+	case v.Height == rb.Height:
+		if v.Round == rb.Round {
+			return true
+		}
+		return v.Type == types.PrevoteType && rb.Proposal != nil && rb.Proposal.POLRound == v.Round
+	case v.Height+1 == rb.Height:
+		return v.Type == types.PrecommitType && rb.Step == cstypes.RoundStepNewHeight
+	case v.Height > rb.Height:
+		return false
+	}
+	return false
 }
 
 func voteDesc(v *types.Vote) string {
@@ -983,9 +1010,20 @@ func (s *sim) antiEntropy(a, b *node, budget int) {
 		if rb.Step == cstypes.RoundStepNewHeight && ra.LastCommit != nil && rb.LastCommit != nil {
 			sendVotes(ra.LastCommit, func(i int) bool { return rb.LastCommit.GetByIndex(i) != nil })
 		}
-		maxR := ra.Votes.Round()
-		for r := maxR; r >= 0 && sent < budget; r-- {
-			for _, t := range []types.SignedMsgType{types.PrecommitType, types.PrevoteType} {
+		// gossipVotesForHeight: votes of the PEER's round (and of its proposal's POL round); queryMaj23Routine +
+		// VoteSetBits: the majority we know for those rounds, and the votes for that block the peer lacks
+		rounds := []int{rb.Round}
+		if rb.Proposal != nil && rb.Proposal.POLRound >= 0 && rb.Proposal.POLRound != rb.Round {
+			rounds = append(rounds, rb.Proposal.POLRound)
+		}
+		for _, r := range rounds {
+			if r > ra.Votes.Round() {
+				continue
+			}
+			for _, t := range []types.SignedMsgType{types.PrevoteType, types.PrecommitType} {
+				if r != rb.Round && t == types.PrecommitType {
+					continue
+				}
 				var va, vb *types.VoteSet
 				if t == types.PrevoteType {
 					va, vb = ra.Votes.Prevotes(r), rb.Votes.Prevotes(r)
@@ -996,8 +1034,6 @@ func (s *sim) antiEntropy(a, b *node, budget int) {
 					continue
 				}
 				sendVotes(va, func(i int) bool { return vb != nil && vb.GetByIndex(i) != nil })
-				// queryMaj23Routine + VoteSetBits: tell the peer about a majority we have seen, and offer the
-				// votes for that block it lacks (this is how votes that conflict with what it holds get through)
 				if id, ok := va.TwoThirdsMajority(); ok {
 					if _, okb := vb.TwoThirdsMajority(); !okb {
 						s.aeMaj23(a, b, ra.Height, r, t, id, va, vb, send)
@@ -1025,14 +1061,28 @@ func (s *sim) antiEntropy(a, b *node, budget int) {
 			if _, okb := vb.TwoThirdsMajority(); !okb {
 				s.aeMaj23(a, b, rb.Height, cround, types.PrecommitType, cid, src, vb, send)
 			}
+			// ps.PickSendVote(commit): whatever the peer lacks by validator index
+			sendVotes(src, func(i int) bool { return vb != nil && vb.GetByIndex(i) != nil })
 		}
-		if meta := a.bs.LoadBlockMeta(rb.Height); meta != nil && rb.ProposalBlockParts != nil && rb.ProposalBlockParts.HasHeader(meta.BlockID.PartsHeader) {
-			bb := rb.ProposalBlockParts.BitArray()
-			for i := 0; i < meta.BlockID.PartsHeader.Total; i++ {
-				if !bb.GetIndex(i) {
+		// gossipDataForCatchup: the peer state's part-set header is initialised from OUR block meta when the peer
+		// announced none, so the committed block's parts are offered whether or not the peer expects them
+		if meta := a.bs.LoadBlockMeta(rb.Height); meta != nil {
+			var bb interface{ GetIndex(int) bool }
+			expects := rb.ProposalBlockParts != nil && rb.ProposalBlockParts.HasHeader(meta.BlockID.PartsHeader)
+			if expects {
+				bb = rb.ProposalBlockParts.BitArray()
+			}
+			if expects || s.net.perfect || s.now() >= s.net.stabAt {
+				for i := 0; i < meta.BlockID.PartsHeader.Total; i++ {
+					if bb != nil && bb.GetIndex(i) {
+						continue
+					}
 					p := a.bs.LoadBlockPart(rb.Height, i)
 					if p == nil || !send(&netMsg{msg: &cons.BlockPartMessage{Height: rb.Height, Round: rb.Round, Part: p}, desc: fmt.Sprintf("ae catchup part %d #%d %s", rb.Height, i, short(meta.BlockID.PartsHeader.Hash))}) {
 						break
+					}
+					if !expects {
+						break // one unexpected part per pass is enough to show it is ignored
 					}
 				}
 			}
